@@ -24,8 +24,10 @@ PROPS["C14"] = {
     "outside": ["flips in length or data bytes: detection rests on SHA-256's first 32 bits changing (cryptographic assumption; SHA-256 is stubbed by an arbitrary hash)", "DEFLATE streams"],
 }
 PROPS["C15"] = {
-    "decided": "these decoders are total (Ok/Err, no panic, no out-of-bounds, no overflow, loops within the unwind bound) on every input of each fixed length within the bound: Bloom filter decode + query, LEB128 and parser combinators, chunk header, cursor and object-id string/byte decoders, sync State/Message framing",
-    "outside": ["load, load_incremental, Change::from_bytes, bundles, rescue, import_obj: document operations or behind a Kani internal compiler error", "inputs longer than the stated fixed lengths"],
+    "decided": "these decoders are total (Ok/Err, no panic, no out-of-bounds, no overflow, loops within the unwind bound) on every input of each fixed length within the bound: Bloom filter decode + query, LEB128 and parser combinators, chunk header, sync State::decode (inputs of 2-3 bytes) and the sync message flags section",
+    "outside": ["load, load_incremental, Change::from_bytes, bundles, rescue, import_obj: document operations or behind a Kani internal compiler error",
+                "Cursor::try_from (bytes and strings), ObjId::try_from, ActorId / ChangeHash string parsing, Message::decode: no harness finishes (str::from_utf8 and TinyVec copies over symbolic input exceed 5 min / 45 GB under Kani); the panics of Cursor::try_from(\"\") and of ids with counter >= 2^32 seen natively (DESIGN.md section 7) are therefore NOT reported by this check",
+                "inputs longer than the stated fixed lengths"],
 }
 PROPS["C17"] = {
     "decided": "step budgets as unwinding assertions: over an n-byte input no loop of the LEB128 parsers, length_prefixed/apply_n with the element parsers used, State::decode or the Bloom probe loop iterates more than the stated bound (linear in n); take_n compares the length before slicing and allocates nothing",
@@ -35,14 +37,16 @@ PROPS["C18"] = {
     "decided": "leaf encodings round-trip: LEB128 (all u64/i64) against the writer the repository uses, ulebsize/lebsize, chunk header write/parse",
     "outside": ["Change::try_from(&[u8]), From<ExpandedChange>, bundles, DEFLATE (Change::parse is behind a Kani internal compiler error)"],
 }
-PROPS["C19"]["decided"] = ("identifier encodings round-trip: cursor bytes/strings, object-id bytes incl. the actor-index hint, sync state and message "
-                           "flags, Bloom filter wire form; id arithmetic is invariant under actor renumbering")
+PROPS["C19"]["decided"] = ("sync state (State::encode -> State::decode, 0 or 1 shared heads of any value), sync message flags and the Bloom filter "
+                           "wire form decode back to equal values; id arithmetic is invariant under actor renumbering (a renumbered id names the same actor bytes)")
+PROPS["C19"]["outside"] = ["ExId / Cursor byte and string encodings (ExId round trip ran out of memory at 45 GB, Cursor::try_from over 2-4 symbolic bytes exceeded 5 min under Kani)",
+                           "Message::encode / decode as a whole", "exid_to_opid / cursor resolution against a live document"]
 PROPS["C21"] = {
-    "decided": "State::decode(State::encode(s)) keeps exactly shared_heads and resets every session field for any prior session state, so a restored state never carries in_flight or stale sent_hashes",
+    "decided": "State::decode(State::encode(s)) keeps exactly shared_heads (0 or 1 heads of any value) and resets every session field for any prior session flags, so a restored state never carries in_flight or stale sent_hashes",
     "outside": ["the network, message loss, convergence (document operations)"],
 }
 PROPS["C22"] = {
-    "decided": "State::set_read_only transition table from an arbitrary state; new_read_only; READ_ONLY / SYNC_RESET / SUPPORTS_SYNC_RESET flags survive encode/parse independently of each other and of legacy bytes",
+    "decided": "State::set_read_only transition table from any state of a fixed container shape with arbitrary flags; new_read_only; READ_ONLY / SYNC_RESET / SUPPORTS_SYNC_RESET flags survive encode/parse independently of each other and of legacy bytes",
     "outside": ["that receive_sync_message skips applying changes when read-only (document operation)"],
 }
 PROPS["C24"] = {
@@ -65,3 +69,17 @@ PROPS["C38"] = {
     "decided": "ChangeBatch::push rejects a second change with the same (actor, seq) and a different hash in every arrival order and accepts the same hash again as a no-op; has_actor_seq reflects exactly the queued pairs",
     "outside": ["Automerge::has_actor_seq, ChangeGraph::add_changes' assertion, load and sync paths"],
 }
+
+# Properties with a text above but fewer than two calibrated quick harnesses are NOT claimed; the manifest carries these reasons.
+_NA = {
+    "C04": "ChangeGraph (update_heads / heads) keeps its nodes in hexane columns and hash maps keyed by 32-byte hashes; building even a 2-change graph needs Column pushes, which do not finish under Kani (3 pushes > 10 min); no harness calibrated",
+    "C05": "ChangeQueue / ChangeBatch are BTreeMap + HashMap structures over 32-byte hashes: the smallest harness (3 changes, unwind 34 for the hash loops) exceeded 15 min under Kani; not calibrated, not claimed",
+    "C06": "the only solver-reachable kernel is ChangeBatch::push (see C05: exceeds 15 min); everything else is a document operation",
+    "C24": "TextEncoding::width iterates str::chars over symbolic UTF-8: one symbolic char exceeded 5 min under Kani; the width index itself lives in the op store",
+    "C25": "MarkStateMachine holds Arc/SmolStr/BTreeMap values: 3 symbolic events exceeded 6 min under Kani; calculate_marks needs a document",
+    "C27": "myers::diff recurses (conquer) and Kani's unwind bound also unwinds the recursion: a 2x2 input exceeded 5.5 min at unwind 5; TxHook bookkeeping needs a document",
+    "C37": "every public call takes a document except the id/cursor decoders, and those do not finish under Kani (Cursor::try_from over 2-4 symbolic bytes > 5 min, ExId round trip out of memory at 45 GB); a single Bloom harness is not a claim",
+    "C38": "ChangeBatch::push / has_actor_seq: same structures as C05, smallest harness exceeded 15 min",
+}
+for _k, _v in _NA.items():
+    PROPS[_k]["na_reason"] = _v
